@@ -271,6 +271,44 @@ func main() {
 	for i, sp := range specs {
 		jobs[i] = job{i, sp}
 	}
+	// the D42, D70 and D71 replays run side by side, each in its own process, while the scenarios run
+	type d70out struct {
+		rs   []d70Result
+		died string
+	}
+	type d71out struct {
+		d     d71Result
+		died  string
+		races int
+	}
+	var d70ch chan d70out
+	var d71ch chan d71out
+	if env.Replay == "" || replayD70 {
+		d70ch = make(chan d70out, 1)
+		go func() {
+			rs, died := runD70Isolated(env)
+			d70ch <- d70out{rs, died}
+		}()
+	}
+	if env.Replay == "" || replayD71 {
+		d71ch = make(chan d71out, 1)
+		go func() {
+			d, died, races := runD71Isolated(env)
+			d71ch <- d71out{d, died, races}
+		}()
+	}
+	type d42out struct {
+		d    d42Result
+		died string
+	}
+	var d42ch chan d42out
+	if env.Replay == "" || replayD42 {
+		d42ch = make(chan d42out, 1)
+		go func() {
+			d, died := runD42Isolated(env)
+			d42ch <- d42out{d, died}
+		}()
+	}
 	records, crashes, notes := runIsolated(env, jobs, par)
 	for _, n := range notes {
 		rep.Note("%s", n)
@@ -313,8 +351,9 @@ func main() {
 	}
 
 	// D42 replay (always), in its own process
-	if env.Replay == "" || replayD42 {
-		d, died := runD42Isolated(env)
+	if d42ch != nil {
+		o42 := <-d42ch
+		d, died := o42.d, o42.died
 		rep.Extra["d42"] = d
 		what := fmt.Sprintf("D42 replay: servers [dead, live], process() parked inside Connect by a blocking Logger, one Send of a %d-byte frame; released at %q +%dµs (trial %d of the sweep)", d.FrameLen, d.Variant, d.DelayUs, d.Trials)
 		if died != "" {
@@ -332,8 +371,9 @@ func main() {
 		}
 	}
 	// D70 replay (always), in its own process: ApplyConfig while sending, both modes
-	if env.Replay == "" || replayD70 {
-		rs, died := runD70Isolated(env)
+	if d70ch != nil {
+		o70 := <-d70ch
+		rs, died := o70.rs, o70.died
 		rep.Extra["d70"] = rs
 		lost, tot := 0, 0
 		ex := ""
@@ -357,8 +397,9 @@ func main() {
 		}
 	}
 	// D71 replay (always), in its own process: the public Close() while senders run
-	if env.Replay == "" || replayD71 {
-		d, died, races := runD71Isolated(env)
+	if d71ch != nil {
+		o71 := <-d71ch
+		d, died, races := o71.d, o71.died, o71.races
 		rep.Extra["d71"] = d
 		what := fmt.Sprintf("D71 replay: 4 senders against a healthy collector while another goroutine calls Close() (%d calls in %d rounds): %d of %d accepted packs were never received (%s); %d connections, %d whole frames, %d streams not made of whole handed frames", d.Closes, d.Rounds, d.Lost, d.Accepted, d.Example, d.Conns, d.Frames, d.Broken)
 		if races > 0 {
